@@ -96,7 +96,9 @@ func VerifyFunc(w *World, key string, opts VerifyOpts) (res *FuncResult) {
 		n := c.declConst("p_"+mangle(p.Name()), c.sortOf(p.Type()))
 		fr.env[p] = n
 		x.assumeAllocatedDeep(st0, p.Type(), n)
-		x.topReqs = append(x.topReqs, ModelReq{Label: "param:" + p.Name(), Term: n})
+	}
+	for _, p := range fn.Params {
+		x.topReqs = append(x.topReqs, x.entryReqs(st0, p, fr.env[p])...)
 	}
 	for _, f := range fn.FreeVars {
 		n := c.declConst("fv_"+mangle(f.Name()), c.sortOf(f.Type()))
